@@ -319,9 +319,14 @@ func genE1(r *Run, prop string) (*e1World, *e1Config) {
 		}
 	}
 	cfg.ntasks = 2 + r.Choose("ntasks", 3)
+	maxOps := 4
+	if Tier == "thorough" {
+		cfg.ntasks = 2 + r.Choose("ntasks-thorough", 4)
+		maxOps = 6
+	}
 	pseq := 0
 	for ti := 0; ti < cfg.ntasks; ti++ {
-		nops := 1 + r.Choose("nops", 4)
+		nops := 1 + r.Choose("nops", maxOps)
 		var ops []opDesc
 		for k := 0; k < nops; k++ {
 			var d opDesc
